@@ -700,3 +700,76 @@ func genIngressGates(repo, out string) {
 	b.WriteString("/-- (kind, name): (\"call\", accessor or verifier), (\"write\", status constant or \"var\"), (\"return\", \"\") -/\ndef ingressEvents : List (String × String) := [" + strings.Join(xs, ", ") + "]\n\nend Hk.Gen\n")
 	must(os.WriteFile(filepath.Join(out, "IngressGates.lean"), []byte(b.String()), 0o644))
 }
+
+// genApiGates reads, for the handlers that front the queue for API callers (pull HTTP, worker gRPC, admin HTTP), the
+// source-order sequence of calls made through the handler's own receiver (`s.X(…)`, `s.Y.X(…)`) and of returns:
+// `Props/ApiGates.lean` proves over it that the authorizer is the first thing each of them consults and that a return
+// separates it from everything else.
+func genApiGates(repo, out string) {
+	type target struct{ file, fn string }
+	targets := []target{
+		{"internal/pullapi/http.go", "ServeHTTP"},
+		{"internal/admin/http.go", "ServeHTTP"},
+		{"internal/workerapi/server.go", "resolveAndAuthorize"},
+		{"internal/workerapi/server.go", "Dequeue"},
+		{"internal/workerapi/server.go", "Ack"},
+		{"internal/workerapi/server.go", "Nack"},
+		{"internal/workerapi/server.go", "Extend"},
+	}
+	var rows []string
+	for _, t := range targets {
+		fset, f := parseFile(filepath.Join(repo, t.file))
+		var fd *ast.FuncDecl
+		for _, d := range f.Decls {
+			if x, ok := d.(*ast.FuncDecl); ok && x.Name.Name == t.fn && x.Recv != nil && len(x.Recv.List) == 1 {
+				if recvFunc(x) == "Server."+t.fn || strings.HasSuffix(recvFunc(x), "."+t.fn) {
+					fd = x
+				}
+			}
+		}
+		if fd == nil || fd.Body == nil || len(fd.Recv.List[0].Names) != 1 {
+			check(fmt.Errorf("%s: no method %s", t.file, t.fn))
+		}
+		recv := fd.Recv.List[0].Names[0].Name
+		type ev struct {
+			pos        int
+			kind, name string
+		}
+		var evs []ev
+		rootIs := func(e ast.Expr) bool {
+			for {
+				switch x := e.(type) {
+				case *ast.SelectorExpr:
+					e = x.X
+				case *ast.Ident:
+					return x.Name == recv
+				default:
+					return false
+				}
+			}
+		}
+		ast.Inspect(fd.Body, func(n ast.Node) bool {
+			switch x := n.(type) {
+			case *ast.FuncLit:
+				return false
+			case *ast.ReturnStmt:
+				evs = append(evs, ev{fset.Position(x.Pos()).Offset, "return", ""})
+			case *ast.CallExpr:
+				if se, ok := x.Fun.(*ast.SelectorExpr); ok && rootIs(se.X) {
+					evs = append(evs, ev{fset.Position(x.Pos()).Offset, "call", se.Sel.Name})
+				}
+			}
+			return true
+		})
+		sort.Slice(evs, func(i, j int) bool { return evs[i].pos < evs[j].pos })
+		var xs []string
+		for _, e := range evs {
+			xs = append(xs, fmt.Sprintf("(%s, %s)", leanStr(e.kind), leanStr(e.name)))
+		}
+		rows = append(rows, fmt.Sprintf("  (%s, %s, [%s])", leanStr(t.file), leanStr(t.fn), strings.Join(xs, ", ")))
+	}
+	var b strings.Builder
+	b.WriteString("/- GENERATED by /verif/extract — calls through the receiver and returns, in source order, of the handlers that front the queue for API callers. do not edit. -/\nnamespace Hk.Gen\n\n")
+	b.WriteString("def apiHandlerEvents : List (String × String × List (String × String)) := [\n" + strings.Join(rows, ",\n") + "]\n\nend Hk.Gen\n")
+	must(os.WriteFile(filepath.Join(out, "ApiGates.lean"), []byte(b.String()), 0o644))
+}
